@@ -1,4 +1,4 @@
-PROPS = ["CTV.Props.C13"]
+PROPS = ["CTV.Props.C13", "CTV.Model.RetrySpec"]
 HARNESS = [dict(pkg="./jsonclient/", test="TestVerifC13", synctest=True, race=True)]
 RULE = ("(a) sequences of backoff.set(override|nil) on the real unexported backoff struct under virtual time (testing/synctest), compared exactly "
         "(wait, notBefore, multiplier) with the regenerated kernel; (b) PostAndParseWithRetry over a scripted in-memory RoundTripper in virtual time: "
